@@ -51,7 +51,8 @@ if os.path.exists(prev):
 if ok and "--skip-target" not in sys.argv:
     # 2a. the target property's check against /repo itself with the change applied, undone at once
     assert sh("git -C /repo status --short").stdout.strip() == "", "/repo not clean"
-    sh(f"git -C /repo apply {patch}")
+    ap = sh(f"git -C /repo apply {patch}")
+    assert ap.returncode == 0, "patch does not apply to /repo HEAD: " + ap.stderr[:300]
     try:
         t0 = time.time()
         c = sh(f"cd {ROOT} && ./check {target} --seconds {max(int(budget), 30)} --no-evidence")
